@@ -820,12 +820,15 @@ impl Number {
     pub fn quotient(&self, rhs: &Self) -> Option<Number> {
         match self {
             Number::Fixnum(lhs) => match rhs {
-                Number::Fixnum(rhs) => Some((lhs / rhs).into()),
+                Number::Fixnum(rhs) => Some(match lhs.checked_div(rhs) {
+                    Some(num) => num.into(),
+                    None => (BigInt::from(*lhs) / rhs).into(),
+                }),
                 Number::BigInt(rhs) => Some((BigInt::from(*lhs) / &**rhs).into()),
                 Number::Float(rhs) => lhs.to_f64().map(|lhs| (lhs / rhs).trunc().into()),
                 Number::Rational(rhs) => {
                     if rhs.is_integer() {
-                        Some((*lhs / rhs.to_i64().unwrap()).into())
+                        self.quotient(&Number::Fixnum(rhs.to_i64().unwrap()))
                     } else {
                         None
                     }
@@ -883,7 +886,7 @@ impl Rem for &Number {
     fn rem(self, rhs: Self) -> Self::Output {
         match self {
             Number::Fixnum(lhs) => match rhs {
-                Number::Fixnum(rhs) => Some((lhs % rhs).into()),
+                Number::Fixnum(rhs) => Some(lhs.wrapping_rem(*rhs).into()),
                 Number::BigInt(rhs) => Some((BigInt::from(*lhs) % &**rhs).into()),
                 Number::Float(rhs) => Some((*lhs as f64 % rhs).into()),
                 Number::Rational(rhs) => {
